@@ -7,6 +7,7 @@ import MinkModel.Pipeline
 import MinkModel.Literal
 import MinkModel.Output
 import MinkModel.Wire
+import MinkModel.Skel
 namespace Mink
 
 structure PState where
@@ -402,5 +403,52 @@ def wireFacts (entry : Entry) (r : WireReq) : List String :=
         "req " ++ " ".intercalate ((encodeDir .inp valOf es).map slotText),
         "rep " ++ " ".intercalate ((encodeDir .out valOf es).map slotText) ]
 
+
+/-! ### `skel` requests: would the generated skeleton serve this envelope? -/
+
+structure SkelReq where
+  case : Case
+  iface : String
+  mask : Bool
+  op : Nat
+  k : Nat
+  sizes : List Nat
+  deriving Inhabited
+
+def pSkel : P SkelReq := do
+  let c ← pCase
+  let i ← P.next
+  let m ← P.nat
+  let op ← P.nat
+  let k ← P.nat
+  let n ← P.nat
+  let sizes ← P.repeat n P.nat
+  pure ⟨c, i, m == 1, op, k, sizes⟩
+
+def parseSkel (line : String) : Except String SkelReq :=
+  let toks := (line.splitOn " ").filter (· != "")
+  match pSkel.run { toks := toks } with
+  | .ok (c, _) => .ok c
+  | .error e => .error e
+
+def skelFacts (r : SkelReq) : List String :=
+  let c := r.case
+  match compile .cli c.fs c.incdirs c.main with
+  | .error e => [s!"verdict reject {e.toString}"]
+  | .ok comp =>
+    let found : Option MIface := comp.mir.findSome? fun
+      | .iface (l :: rest) => if nm c.names l.name == r.iface then some (l :: rest) else none
+      | _ => none
+    match found with
+    | none => ["bad-request no such interface"]
+    | some i =>
+      let env : Envelope := ⟨r.op, r.k, fun n => r.sizes.getD n 0⟩
+      let out := dispatch r.mask i (fun _ => false) env
+      let fn := (MIface.flatFuncs i).find? (fun of => of.2.id == methodId r.mask r.op)
+      [ "verdict accept",
+        "outcome " ++ (match out with | .served => "served" | .refused => "refused" | .invalid => "invalid"),
+        "guards " ++ (match fn with
+          | some of => " ".intercalate ((guards of.2.params).map fun g => s!"{g.1}:{g.2}")
+          | none => "") ]
 
 end Mink
